@@ -7,4 +7,4 @@ THEOREMS = ["C14_limits_every_reachable_state", "C14_connection_limit", "C14_ope
 
 
 def run(tier, replay=None):
-    return srvprops.run(PROP, THEOREMS, tier, replay, extra_gen=sl.kick_histories, rule_note=' plus directed removal histories: an owner removes a member with LEAVE on_behalf, then drops / fills its own limit / the removed member re-joins up to its limit / a namesake reconnects and probes ownership; ends with the CHANNELS-vs-MEMBERS audit (members must be alive)')
+    return srvprops.run(PROP, THEOREMS, tier, replay, extra_gen=lambda r, th: sl.kick_histories(r, th) + sl.slot_histories(r, th) + sl.inflight_histories(r, th), rule_note=' plus connections ending through the write-error path max_connections times followed by new connections, and requests timing out in a silent modulator max_inflight_requests times followed by a full pipelined window;' + ' plus directed removal histories: an owner removes a member with LEAVE on_behalf, then drops / fills its own limit / the removed member re-joins up to its limit / a namesake reconnects and probes ownership; ends with the CHANNELS-vs-MEMBERS audit (members must be alive)')
